@@ -46,6 +46,10 @@ type Conn struct {
 	Out func(i int, b []byte)
 	// OnClose is called once when real code closes the connection.
 	OnClose func()
+	// WErr, if set, is asked before every write (attempt index, bytes): a non-nil error is what the
+	// write returns, and nothing is sent (a failing system call: ECONNREFUSED after an ICMP error, ...)
+	WErr func(i int, b []byte) error
+	nWAttempt int
 }
 
 func (w *World) NewConn(name string, packet bool, local, remote Addr) *Conn {
@@ -186,6 +190,16 @@ func (c *Conn) SetWriteLimit(n int) {
 }
 
 func (c *Conn) Write(p []byte) (int, error) {
+	if c.WErr != nil {
+		c.mu.Lock()
+		i := c.nWAttempt
+		c.nWAttempt++
+		c.mu.Unlock()
+		if e := c.WErr(i, p); e != nil {
+			c.w.Log(c.Name+">", "tx-error", append([]byte(nil), p...), e.Error(), int64(i))
+			return 0, e
+		}
+	}
 	written := 0
 	for {
 		c.mu.Lock()
